@@ -21,3 +21,7 @@ func (app *App) VerifHandleWs(w http.ResponseWriter, r *http.Request) { app.hand
 
 // VerifStartHTTPServer forwards to (*App).startHTTPServer (real router, real routes).
 func (app *App) VerifStartHTTPServer(port int) *http.Server { return app.startHTTPServer(port) }
+
+// VerifApp returns the package-level App that Stream() assembles and runs (for hosts started the way
+// `relay host` starts them: configuration from the environment).
+func VerifApp() *App { return &app }
